@@ -78,10 +78,10 @@ def check_property(prop, tier, seed):
         # two further SMT seeds: an obligation that flips between seeds is unstable -> UNDECIDED
         for s in (seed + 1, seed + 2):
             extra_seed_runs.append(_run_units([u for u in units if index[u].get('engine', 'verus') == 'verus'], index, s, tier))
-    c = R.classify(runs, prop, baseline, known)
+    c = R.classify(runs, prop, baseline, known, known_all.get('findings', []))
     unstable = []
     for er in extra_seed_runs:
-        c2 = R.classify(er, prop, baseline, known)
+        c2 = R.classify(er, prop, baseline, known, known_all.get('findings', []))
         a = set(o.id for o, _, _ in c['violations']) | set(o.id for o, _, _ in c['unbaselined'])
         b = set(o.id for o, _, _ in c2['violations']) | set(o.id for o, _, _ in c2['unbaselined'])
         for oid in a ^ b:
@@ -94,6 +94,7 @@ def check_property(prop, tier, seed):
     #      the drivers run always.
     fallback_hits = []
     fallback_runs = []
+    driver_known = []
     for u in runs:
         meta = index.get(u.unit, {})
         fbs = meta.get('fallback', [])
@@ -108,7 +109,24 @@ def check_property(prop, tier, seed):
             ok, info = scratch.run_replay_driver(drv)
             fallback_runs.append({'unit': u.unit, 'driver': drv['test'], 'bound': drv.get('bound', ''), 'passed': ok, 'wall_s': info.get('wall_s')})
             if ok is False:
-                fallback_hits.append((u, drv, info))
+                # failing histories that are listed as open known findings (known_findings.json `driver_lines`) are reported as such;
+                # any other failing line of the driver is a violation
+                lines = info.get('failing_input') or []
+                kn_hit, rest = [], []
+                for ln in lines:
+                    m = [k for k in known if k.get('status', 'open') == 'open' and any(pat in ln for pat in k.get('driver_lines', []))]
+                    if m:
+                        kn_hit.append((ln, m[0]))
+                    else:
+                        rest.append(ln)
+                for ln, k in kn_hit:
+                    driver_known.append((drv, ln, k))
+                fallback_runs[-1]['known_finding_lines'] = [ln for ln, _ in kn_hit]
+                if rest or not lines:
+                    info = dict(info, failing_input=rest or lines)
+                    fallback_hits.append((u, drv, info))
+                else:
+                    fallback_runs[-1]['passed'] = 'only listed known findings failed'
     # ---- replay search for violations (real code)
     violation_lines = []
     for u, drv, info in fallback_hits:
@@ -136,6 +154,11 @@ def check_property(prop, tier, seed):
             continue
         seen.add(key)
         known_lines.append(f'KNOWN-FINDING: property={prop} {k.get("what")} [{o.id}]')
+    for drv, ln, k in driver_known:
+        if any(sk[1] == k.get('what') for sk in seen):
+            continue
+        seen.add(('driver', k.get('what')))
+        known_lines.append(f'KNOWN-FINDING: property={prop} {k.get("what")} [bounded driver {drv["test"]}: {ln[:160]}]')
     for o, d, u in c['unbaselined']:
         c['undecided'].append(f'{o.id} fails and is neither in the baseline nor a known finding: {d["message"]} at {d.get("site")}')
     wall = time.time() - t0
